@@ -11,7 +11,7 @@ from hypothesis import strategies as st
 import ndn.security.tpm.tpm as tpm_mod
 import ndn.security.tpm.tpm_file as tpm_file_mod
 from ndn.app_support.security_v2 import derive_cert
-from ndn.encoding import MetaInfo, Name, make_data
+from ndn.encoding import Component, MetaInfo, Name, make_data
 from ndn.security import KeychainSqlite3, TpmFile
 
 from .. import keys as K
@@ -382,7 +382,7 @@ def _verify(sig_type, pub, signed, sig):
 
 
 # ---------------- operations ---------------------------------------------------------------------------------------------
-MUTATING = ['new_identity', 'touch_identity', 'new_key', 'import_cert', 'set_default_identity', 'set_default_key',
+MUTATING = ['new_identity', 'touch_identity', 'new_key', 'import_cert', 'set_default_identity', 'set_default_key', 'set_default_key_foreign',
             'set_default_cert', 'del_cert', 'del_key', 'del_identity']
 
 
@@ -473,6 +473,31 @@ def apply_op(w, model, st_, op):
         kc[idn].set_default_key(Name.from_bytes(kn))
         model[idn]['default_key'] = kn
         return 'ok', lambda m, d: None if m[idn]['default_key'] == kn else 'default key not set'
+    if k == 'set_default_key_foreign':
+        # set_default_key() asked for a name that is NOT a key of that identity: a key of another identity, an unknown name, or
+        # a key that was deleted.  Refusing (KeyError / ValueError) and ignoring are both fine; the identity's own default, which
+        # was not deleted, must stay (the named key's own identity may have made it its default - that is its business)
+        if not ids:
+            return 'skip', None
+        idn = ids[op['i'] % len(ids)]
+        others = [(i2, kn) for i2, kn in keys if i2 != idn]
+        gone = [kn for kn in st_['deleted_keys'] if not any(kn in model[i2]['keys'] for i2 in ids)]
+        kind = op['t'] % 3
+        if kind == 0 and others:
+            other_id, name_b = others[op['t'] // 3 % len(others)]
+        elif kind == 1 and gone:
+            other_id, name_b = None, gone[op['t'] // 3 % len(gone)]
+        else:
+            other_id, name_b = None, Name.to_bytes(Name.from_bytes(idn) + [Component.from_str('KEY'), Component.from_str('nokey')])
+        try:
+            kc[idn].set_default_key(Name.from_bytes(name_b))
+        except (KeyError, ValueError):
+            return 'expected-error', None
+        if other_id is not None:
+            now_raw, _ = w.raw()
+            if now_raw.get(other_id, {}).get('default_key') == name_b:
+                model[other_id]['default_key'] = name_b
+        return 'ok', None
     if k == 'set_default_cert':
         if not certs:
             return 'skip', None
@@ -731,6 +756,7 @@ def _op():
         st.fixed_dictionaries({'op': st.just('set_default_identity'), 'i': i}),
         st.fixed_dictionaries({'op': st.just('set_default_key'), 't': i}),
         st.fixed_dictionaries({'op': st.just('set_default_cert'), 't': i}),
+        st.fixed_dictionaries({'op': st.just('set_default_key_foreign'), 'i': i, 't': st.integers(0, 11)}),
         st.fixed_dictionaries({'op': st.just('del_cert'), 't': i, 'via_view': st.booleans()}),
         st.fixed_dictionaries({'op': st.just('del_key'), 't': i, 'via_view': st.booleans()}),
         st.fixed_dictionaries({'op': st.just('del_identity'), 'i': i}),
